@@ -655,7 +655,7 @@ class C15(Prop):
             if r['m'] == 'HEAD' or ob is None or len(ob['w']) < 1:
                 return None
             see_other = 303 if r['v'] == '1.1' else 302
-            status = {'none': 404, 'yield0': 404, 'raise': 500, 'forbidden': 403, 'redirect': see_other, 'raise_redirect': see_other,
+            status = {'none': 404, 'yield0': 404, 'raise': 500, 'forbidden': 403, 'redirect': see_other, 'raise_redirect': 303,
                       'redirect304': 304, 'guard301': 301}[k]
             if k in ('redirect', 'raise_redirect'):
                 pre += [('Content-Type', 'text/html'), ('Location', 'http://x/t')]
@@ -728,7 +728,7 @@ class C15(Prop):
             ws = [w.encode('latin1') for w in ob['w']]
             if ws:
                 ws[0] = strip_date(ws[0])
-            if r['h']['kind'] in ERRORS:
+            if r['h']['kind'] in ERRORS or guard301(r):
                 ws[1:] = [b'x' * len(w) for w in ws[1:]]
             out.append([[rle(w) for w in ws], bool(ob['closed'])])
         ps = []
@@ -749,6 +749,12 @@ class C15(Prop):
         for i, (r, ob) in enumerate(zip(c['reqs'], obs)):
             h = r['h']
             what = self._oracle1(r, h, ob, i)
+            if what and i > 0:
+                try:
+                    prev = client_decode(b''.join(w.encode('latin1') for w in obs[i - 1]['w']), c['reqs'][i - 1]['m'])[0]
+                    what += ' [follow-up on a kept-alive connection; the previous answer on it had status %d]' % prev
+                except Exception:
+                    pass
             if what:
                 return 'request %d (%s %s HTTP/%s Connection:%s, handler %s status %s stream %s): %s' % (
                     i, r['m'], PATHS.get(r.get('path'), '/'), r['v'], r.get('conn'), h['kind'], h['status'], h.get('stream'), what)
